@@ -1450,6 +1450,107 @@ func c20AppLimitedAndMTU(c *Ctx) {
 	}
 }
 
+// C20.6: probe credit (numProbesToSend), which lets SendMode bypass the congestion window, is granted only by the
+// loss-detection timeout and is cancelled by every ACK that was processed, unconditionally.
+func c20ProbeCredit(c *Ctx) {
+	const R = "C20.6"
+	np := c.fld(ah, "sentPacketHandler", "numProbesToSend")
+	c.checkWriters(R, np, c.set([3]string{ah, "sentPacketHandler", "DropPackets"}, [3]string{ah, "sentPacketHandler", "SentPacket"},
+		[3]string{ah, "sentPacketHandler", "ReceivedAck"}, [3]string{ah, "sentPacketHandler", "OnLossDetectionTimeout"}), 5)
+	ra := c.fn(ah, "sentPacketHandler", "ReceivedAck")
+	dlp := c.obj(ah, "sentPacketHandler", "detectLostPackets")
+	reset := func(in ssa.Instruction) bool {
+		st, ok := in.(*ssa.Store)
+		if !ok || fieldOfAddress(st.Addr) != np {
+			return false
+		}
+		k, isK := st.Val.(*ssa.Const)
+		if !isK || k.Value == nil {
+			return false
+		}
+		n, exact := constant.Int64Val(k.Value)
+		return exact && n == 0
+	}
+	c.Floor(R, "detectLostPackets calls in ReceivedAck", countInstr(ra, CallsTo(dlp)), 1)
+	c.cut(R, "reset:an ACK that was processed cancels leftover probe credit", &Cut{Fn: ra, Start: CallsTo(dlp), Target: isReturn, Barrier: reset},
+		"SendMode returns the PTO modes while numProbesToSend > 0 without asking the congestion controller: credit that survives an ACK releases ack-eliciting data beyond the window with no PTO pending")
+}
+
+// C18.8: responseWriter.Write counts every byte it accepts (numWritten) and compares the count with a declared
+// Content-Length before it reports the bytes as written, on every path (HEAD included: the count becomes the
+// Content-Length of a HEAD response).
+func c18WriteAccounting(c *Ctx) {
+	const R = "C18.8"
+	f := c.fn(h3, "responseWriter", "Write")
+	nw := c.fld(h3, "responseWriter", "numWritten")
+	cl := c.fld(h3, "responseWriter", "contentLen")
+	accepts := func(in ssa.Instruction) bool {
+		r, ok := in.(*ssa.Return)
+		if !ok {
+			return false
+		}
+		rs := retResults(r)
+		if len(rs) != 2 {
+			return false
+		}
+		if k, isK := rs[0].(*ssa.Const); isK && k.Value != nil {
+			if n, exact := constant.Int64Val(k.Value); exact && n == 0 {
+				return false
+			}
+		}
+		return true
+	}
+	count := func(in ssa.Instruction) bool {
+		st, ok := in.(*ssa.Store)
+		if !ok || fieldOfAddress(st.Addr) != nw {
+			return false
+		}
+		return BinV(token.ADD, func(v ssa.Value) bool { return loadsPath(v, nw) }, func(v ssa.Value) bool { return LenOf(ParamV("p"))(stripConv(v)) })(st.Val)
+	}
+	compare := func(in ssa.Instruction) bool {
+		b, ok := in.(*ssa.BinOp)
+		if !ok {
+			return false
+		}
+		switch b.Op {
+		case token.GTR, token.LSS, token.GEQ, token.LEQ:
+		default:
+			return false
+		}
+		return (loadsPath(b.X, nw) && loadsPath(b.Y, cl)) || (loadsPath(b.X, cl) && loadsPath(b.Y, nw))
+	}
+	c.Floor(R, "accepting returns of responseWriter.Write", countInstr(f, accepts), 2)
+	c.cut(R, "count:bytes are accepted only after numWritten += len(p)", &Cut{Fn: f, Target: accepts, Barrier: count},
+		"numWritten is what the server turns into the Content-Length of an unflushed (in particular HEAD) response and what is held against a declared Content-Length")
+	c.cut(R, "limit:bytes are accepted only after the Content-Length comparison", &Cut{Fn: f, Target: accepts, Barrier: compare,
+		Edge: EdgeRel(Rel{Op: token.EQL, X: func(v ssa.Value) bool { return loadsPath(v, cl) }, Y: ConstI(0)}, false)},
+		"a handler cannot write more than the Content-Length it declared")
+}
+
+// C18.9: repeated field names in a decoded header / trailer section accumulate (Header.Add), none replaces another.
+func c18FieldsAccumulate(c *Ctx) {
+	const R = "C18.9"
+	addM := c.obj("net/http", "Header", "Add")
+	setM := c.obj("net/http", "Header", "Set")
+	for _, name := range []string{"parseHeaders", "parseTrailers"} {
+		f := c.fn(h3, "", name)
+		c.Floor(R, "Header.Add in "+name, countInstr(f, CallsTo(addM)), 1)
+		// Set with a constant key (the Content-Length normalisation) is not a decoded field
+		bad := 0
+		for _, in := range findInstrs(f, CallsTo(setM)) {
+			args := in.(ssa.CallInstruction).Common().Args
+			if len(args) < 2 {
+				bad++
+				continue
+			}
+			if _, isK := args[1].(*ssa.Const); !isK {
+				bad++
+			}
+		}
+		c.Check(bad == 0, R, "accumulate:"+name+" never replaces a decoded field", c.P.Pos(f.Pos()), "a field name that occurs twice in the section keeps both values (Header.Set only with a constant key)")
+	}
+}
+
 // C18.6: the request body is only ever read through the cancelingReader (which resets the stream when the body
 // source fails): the raw body parameter is used for Close and as the wrapped reader, nothing else.
 func c18BodyThroughCancelingReader(c *Ctx) {
